@@ -50,7 +50,7 @@ type c11HTTPCase struct {
 	Cfg       int      `json:"registrar"`
 	XFF       []string `json:"x_forwarded_for,omitempty"`
 	Remote    string   `json:"remote_addr"`    // recorder only
-	CL        int      `json:"content_length"` // recorder only: 0 = real length, 1 = unknown (-1), 2 = real+5, 3 = 0, 4 = 33
+	CL        int      `json:"content_length"` // recorder only: class of r.ContentLength, independent of the body (see c11CL)
 	LogIP     bool     `json:"log_client_ip,omitempty"`
 	SendFail  bool     `json:"zmq_send_fails,omitempty"`
 	Kind      string   `json:"kind,omitempty"`
@@ -90,6 +90,32 @@ func (c c11HTTPCase) path() string {
 	return "/register"
 }
 
+// c11CL returns the Content-Length the request announces for class cl and a body of n bytes; the
+// value net/http hands to the handler in r.ContentLength comes from the header, not from the body:
+// 0 the real length, 1 unknown (-1: chunked), 2 five more than the body, 3 zero, 4 one less than the
+// body, 5 2^31, 6 2^50, 7 MaxInt64.
+func c11CL(cl, n int) int64 {
+	switch cl {
+	case 1:
+		return -1
+	case 2:
+		return int64(n) + 5
+	case 3:
+		return 0
+	case 4:
+		if n > 0 {
+			return int64(n) - 1
+		}
+	case 5:
+		return 1 << 31
+	case 6:
+		return 1 << 50
+	case 7:
+		return 1<<63 - 1
+	}
+	return int64(n)
+}
+
 // c11Depth says how far the request gets by construction: "method", "length", "decode" or "logic".
 func c11Depth(c c11HTTPCase, recorder bool) string {
 	if c.Method != http.MethodPost {
@@ -97,16 +123,7 @@ func c11Depth(c c11HTTPCase, recorder bool) string {
 	}
 	n := int64(len(c.Body))
 	if recorder {
-		switch c.CL {
-		case 1:
-			n = -1
-		case 2:
-			n += 5
-		case 3:
-			n = 0
-		case 4:
-			n = 33
-		}
+		n = c11CL(c.CL, len(c.Body))
 	}
 	if n < 33 {
 		return "length"
@@ -120,16 +137,7 @@ func c11Depth(c c11HTTPCase, recorder bool) string {
 func c11HTTPRun(e *c11HTTPEnv, c c11HTTPCase) (classes []string, nontrivial bool, o c11h.Outcome) {
 	s, pr := e.server(c)
 	req := httptest.NewRequest(c.Method, c.path(), bytes.NewReader(c.Body))
-	switch c.CL {
-	case 1:
-		req.ContentLength = -1
-	case 2:
-		req.ContentLength = int64(len(c.Body)) + 5
-	case 3:
-		req.ContentLength = 0
-	case 4:
-		req.ContentLength = 33
-	}
+	req.ContentLength = c11CL(c.CL, len(c.Body))
 	req.RemoteAddr = c.Remote
 	for _, v := range c.XFF {
 		req.Header.Add("X-Forwarded-For", v)
@@ -174,7 +182,7 @@ func c11HTTPCheck(t vh.Fataler, rec *vh.Rec, e *c11HTTPEnv, c c11HTTPCase, fuzz 
 	c11h.Report(t, rec, c11HTTPSub, "http", c, vh.Digest(c), o, nontrivial, classes...)
 }
 
-const c11HTTPRule = "register / registerBidirectional handlers (ResponseRecorder) of an APIRegServer backed by a real RegProcessor (4 registrar configurations) x server ClientConf {none, generation 0, 957, 958, 2^32-1} on drawn requests: body = C2SWrapper built field by field as in the zmq sub-check (sometimes byte-mutated / raw), method, Content-Length (real, unknown, too large, 0, 33), RemoteAddr and X-Forwarded-For variants; non-trivial = POST with a body that decodes, so the handler's logic behind the request checks ran; distinct by case"
+const c11HTTPRule = "register / registerBidirectional handlers (ResponseRecorder) of an APIRegServer backed by a real RegProcessor (4 registrar configurations) x server ClientConf {none, generation 0, 957, 958, 2^32-1} on drawn requests: body = C2SWrapper built field by field as in the zmq sub-check (sometimes byte-mutated / raw), method, announced Content-Length independent of the body (real, unknown, +5, 0, -1, 2^31, 2^50, MaxInt64), RemoteAddr and X-Forwarded-For variants; non-trivial = POST with a body that decodes, so the handler's logic behind the request checks ran; distinct by case"
 
 var (
 	c11Remotes = []string{"198.51.100.9:40123", "127.0.0.1:5000", "[::1]:5000", "[2001:db8::9]:443", "198.51.100.9", "", ":80", "not-an-address", "[::1", "198.51.100.9:40123:1"}
@@ -196,8 +204,8 @@ func c11HTTPGen(rt *rapid.T) c11HTTPCase {
 	if n := rapid.SampledFrom([]int{0, 0, 0, 1, 2}).Draw(rt, "nxff"); n > 0 {
 		c.XFF = rapid.SliceOfN(rapid.SampledFrom(c11XFFs), n, n).Draw(rt, "xff")
 	}
-	if rapid.IntRange(0, 7).Draw(rt, "othercl") == 7 {
-		c.CL = rapid.IntRange(1, 4).Draw(rt, "cl")
+	if rapid.IntRange(0, 4).Draw(rt, "othercl") == 4 {
+		c.CL = rapid.SampledFrom([]int{1, 2, 3, 4, 6, 7, 6, 7, 2, 5}).Draw(rt, "cl")
 	}
 	c.LogIP = rapid.Bool().Draw(rt, "logip")
 	c.SendFail = rapid.IntRange(0, 9).Draw(rt, "sendfail") == 9
@@ -209,9 +217,7 @@ func c11HTTPGen(rt *rapid.T) c11HTTPCase {
 func c11HTTPFromSel(body []byte, sel uint32, xff string) c11HTTPCase {
 	c := c11HTTPCase{Body: body, Cfg: int(sel & 3), Bidir: sel&4 == 0, Method: http.MethodPost, ServerGen: c11Gens[(sel>>3)&7%uint32(len(c11Gens))],
 		Remote: c11Remotes[(sel>>9)&15%uint32(len(c11Remotes))], SendFail: sel&(1<<14) != 0, LogIP: sel&(1<<15) != 0}
-	if cl := int((sel >> 6) & 7); cl <= 4 {
-		c.CL = cl
-	}
+	c.CL = int((sel >> 6) & 7)
 	if sel&(1<<13) != 0 {
 		c.Method = http.MethodGet
 	}
@@ -239,7 +245,9 @@ func c11HTTPSeeds() [][]any {
 		out = append(out, []any{b, uint32(i % 4), ""}, []any{b, uint32(i%4 | 4<<3), ""}, []any{b, uint32(4 | i%4 | 5<<3), ""})
 	}
 	out = append(out, []any{[]byte{}, uint32(0), ""}, []any{bytes.Repeat([]byte{0}, 33), uint32(4 << 3), ""}, []any{bytes.Repeat([]byte{0xff}, 40), uint32(0), ","},
-		[]any{regprocessor.C11MustMarshal(valid[0]), uint32(1 << 13), ""}, []any{regprocessor.C11MustMarshal(valid[0]), uint32(1 << 6), ""}, []any{regprocessor.C11MustMarshal(valid[0]), uint32(5 << 9), "x"})
+		[]any{regprocessor.C11MustMarshal(valid[0]), uint32(1 << 13), ""}, []any{regprocessor.C11MustMarshal(valid[0]), uint32(1 << 6), ""}, []any{regprocessor.C11MustMarshal(valid[0]), uint32(5 << 9), "x"},
+		[]any{regprocessor.C11MustMarshal(valid[0]), uint32(6 << 6), ""}, []any{regprocessor.C11MustMarshal(valid[0]), uint32(7<<6 | 4), ""}, []any{regprocessor.C11MustMarshal(valid[1]), uint32(7<<6 | 1), ""},
+		[]any{regprocessor.C11MustMarshal(valid[0]), uint32(4<<6 | 4), ""}, []any{regprocessor.C11MustMarshal(valid[0]), uint32(2 << 6), ""}, []any{[]byte{1, 2, 3}, uint32(6<<6 | 4), ""})
 	return out
 }
 
